@@ -253,20 +253,38 @@ def evalQuery : Nat → Env → Query → M Rel
     let limV ← evalOpt (cbs n) te env limit
     let offV ← evalOpt (cbs n) te env offset
     let rows ← applyLimit rows limV offV
-    match lock with
-    | .none => pure ()
-    | _ =>
-      -- FOR UPDATE: lock the rows that are returned (documentation SELECT,
-      -- "The Locking Clause"); a row held by another transaction blocks
-      for r in rows do
-        for (tn, rid) in r.srcs do
-          let t ← getTable tn
-          match ← latestVersion t rid with
+    let rows ← match lock with
+      | .none => pure rows
+      | _ => do
+        -- FOR UPDATE: lock the rows that are returned (documentation SELECT, "The
+        -- Locking Clause"); a row held by another transaction blocks. READ COMMITTED
+        -- (13.2.1): if the row was changed by a transaction that committed after the
+        -- statement's snapshot, the WHERE clause is re-evaluated on the updated
+        -- version, which is the one locked and returned (or skipped if it no longer
+        -- matches / was deleted).
+        let mut out : List OutRow := []
+        for r in rows do
+          let mut cur : Option OutRow := some r
+          for (tn, rid) in r.srcs do
+            if cur.isNone then break
+            let t ← getTable tn
+            match ← latestVersion t rid with
+            | none => cur := none
+            | some ver =>
+              match ← heldByOther ver with
+              | some x => throw (.blocked s!"row:{tn}:{rid}:xid:{x}" x 0)
+              | none =>
+                lockVersion tn rid
+                let unchanged := r.locals.any (fun sc => sc.src == some (tn, rid) && sc.vals == ver.vals)
+                if !unchanged then
+                  modify fun s => { s with epq := some (tn, rid, ver.vals) }
+                  let (_, again) ← evalSetExpr n env body []
+                  modify fun s => { s with epq := none }
+                  cur := again.head?
+          match cur with
+          | some x => out := out ++ [x]
           | none => pure ()
-          | some ver =>
-            match ← heldByOther ver with
-            | some x => throw (.blocked s!"row:{tn}:{rid}:xid:{x}" x 0)
-            | none => lockVersion tn rid
+        pure out
     pure { cols := cols, rows := rows.map (·.vals) }
 
 /-- evaluate the CTEs of a WITH clause, in order, all under the statement's
